@@ -495,7 +495,18 @@ const (
 	vfC25MaxForged  = 3 // forged presentations per history (bound of the space)
 )
 
+// vfC25BackSteps is the clock alphabet of the "clock-steps" spaces: the clock may also step
+// BACKWARDS (NTP correction, VM migration) between presentations. "All clock histories".
+var vfC25BackSteps = []int64{-vfC25Skew, -vfC25Skew / 2, vfC25Skew, 2*vfC25Skew + 1}
+
 func vfC25History(t *testing.T, capName string, capacity int, depth int) {
+	vfC25HistoryWith(t, "history-cap"+capName, capName, capacity, depth, vfC25Advances, true)
+}
+
+// vfC25HistoryWith: steps are the four clock moves bound to events 3..6; extras enables the
+// forged / respelled presentation events (7..11).
+func vfC25HistoryWith(t *testing.T, spaceName, capName string, capacity int, depth int, steps []int64, extras bool) {
+	sigBase := strings.TrimSuffix(strings.SplitN(spaceName, "-cap", 2)[0], "-")
 	k1 := vfC25Secrets["k1"]
 	stamps := []int64{vfC25T0 - vfC25Skew, vfC25T0, vfC25T0 + vfC25Skew}
 	var proofs [3]string
@@ -545,7 +556,7 @@ func vfC25History(t *testing.T, capName string, capacity int, depth int) {
 		_, canonErr := other(req(""))
 		inner = 0
 		if canonErr == nil {
-			x.Failf("C25:history:absent:not-refused", "a request without a proof passed the gate")
+			x.Failf("C25:"+sigBase+":absent:not-refused", "a request without a proof passed the gate")
 			return "setup-error", true
 		}
 
@@ -560,6 +571,9 @@ func vfC25History(t *testing.T, capName string, capacity int, depth int) {
 		forged := 0
 		for i, ev := range hist {
 			last := i == len(hist)-1
+			if !extras && ev >= vfC25EvBadFresh {
+				return "", false // not part of this space's alphabet
+			}
 			if ev == vfC25EvBadFresh || ev == vfC25EvBadReuse {
 				forged++
 				if forged > vfC25MaxForged {
@@ -579,11 +593,11 @@ func vfC25History(t *testing.T, capName string, capacity int, depth int) {
 				if last {
 					switch {
 					case gerr == nil:
-						x.Failf("C25:history:bad-mac-accepted:cap="+capName, "a proof whose MAC was made with an unknown secret passed the gate at T0%+d", clk-vfC25T0)
+						x.Failf("C25:"+sigBase+":bad-mac-accepted:cap="+capName, "a proof whose MAC was made with an unknown secret passed the gate at T0%+d", clk-vfC25T0)
 					case inner != before:
-						x.Failf("C25:history:inner-called-on-refusal:cap="+capName, "refused forged presentation ran the inner authenticator")
+						x.Failf("C25:"+sigBase+":inner-called-on-refusal:cap="+capName, "refused forged presentation ran the inner authenticator")
 					case gerr.Error() != canonErr.Error():
-						x.Failf("C25:history:refusal-differs:cap="+capName, "refusal %q differs from the no-proof refusal %q", gerr, canonErr)
+						x.Failf("C25:"+sigBase+":refusal-differs:cap="+capName, "refusal %q differs from the no-proof refusal %q", gerr, canonErr)
 					}
 				}
 				// not an admission: the replay model is untouched. It is part of the state key
@@ -592,11 +606,15 @@ func vfC25History(t *testing.T, capName string, capacity int, depth int) {
 				continue
 			}
 			if ev >= 3 && ev < vfC25EvBadFresh {
-				if clk-vfC25T0 > 2*vfC25Skew+1 {
+				d := steps[ev-3]
+				if d >= 0 && clk-vfC25T0 > 2*vfC25Skew+1 {
 					// every proof is past its window for good: the clock is not advanced further (bound of the space)
 					return "", false
 				}
-				clk += vfC25Advances[ev-3]
+				if d < 0 && clk-vfC25T0 < -2*vfC25Skew-1 {
+					return "", false // symmetric bound for backward steps
+				}
+				clk += d
 				continue
 			}
 			p, wire, mark := ev, "", ""
@@ -614,18 +632,18 @@ func vfC25History(t *testing.T, capName string, capacity int, depth int) {
 			if last {
 				switch {
 				case acceptedNow && inner != before+1:
-					x.Failf("C25:history:inner-count:cap="+capName, "accepted presentation ran the inner authenticator %d times", inner-before)
+					x.Failf("C25:"+sigBase+":inner-count:cap="+capName, "accepted presentation ran the inner authenticator %d times", inner-before)
 				case !acceptedNow && inner != before:
-					x.Failf("C25:history:inner-called-on-refusal:cap="+capName, "refused presentation ran the inner authenticator")
+					x.Failf("C25:"+sigBase+":inner-called-on-refusal:cap="+capName, "refused presentation ran the inner authenticator")
 				case !acceptedNow && gerr.Error() != canonErr.Error():
-					x.Failf("C25:history:refusal-differs:cap="+capName, "refusal %q differs from the no-proof refusal %q", gerr, canonErr)
+					x.Failf("C25:"+sigBase+":refusal-differs:cap="+capName, "refusal %q differs from the no-proof refusal %q", gerr, canonErr)
 				}
 				if acceptedNow && !inWindow {
-					x.Failf("C25:history:accepted-outside-window:stamp="+vfC25StampNames[p]+":cap="+capName,
+					x.Failf("C25:"+sigBase+":accepted-outside-window:stamp="+vfC25StampNames[p]+":cap="+capName,
 						"P%d (ts=T0%+d) accepted at T0%+d, |now-ts|=%d > skew=%d", p+1, stamps[p]-vfC25T0, clk-vfC25T0, age, vfC25Skew)
 				}
 				if acceptedNow && inWindow && model[p].accepted && len(model[p].others) < effCap {
-					x.Failf("C25:history:replay-accepted:stamp="+vfC25StampNames[p]+":cap="+capName,
+					x.Failf("C25:"+sigBase+":replay-accepted:stamp="+vfC25StampNames[p]+":cap="+capName,
 						"P%d (ts=T0%+d) was accepted earlier and is accepted AGAIN at T0%+d while its timestamp is still inside the window (|now-ts|=%d <= skew=%d); only %d other distinct proof(s) were admitted since (capacity %d). log so far (P=admitted, F/R=forged, refused): %v",
 						p+1, stamps[p]-vfC25T0, clk-vfC25T0, vfC25Abs(age), vfC25Skew, len(model[p].others), effCap, accLog)
 				}
@@ -649,11 +667,16 @@ func vfC25History(t *testing.T, capName string, capacity int, depth int) {
 	}
 
 	venum.BFS(t, venum.BFSCfg{
-		Name:      "history-cap" + capName,
+		Name:      spaceName,
 		MaxDepth:  depth,
 		NEvents:   3 + len(vfC25Advances) + 2 + 3,
 		Step:      step,
-		EventName: vfC25EventName,
+		EventName: func(ev int) string {
+			if ev >= 3 && ev < vfC25EvBadFresh {
+				return fmt.Sprintf("clock%+d", steps[ev-3])
+			}
+			return vfC25EventName(ev)
+		},
 	})
 }
 
@@ -739,4 +762,8 @@ func TestVerif_C25(t *testing.T) {
 	vfC25History(t, "1", 1, depth)
 	vfC25History(t, "2", 2, depth)
 	vfC25History(t, "default", 0, depth)
+	// clock histories that are not monotonic (separate small spaces, plain present events only)
+	bdepth := venum.QT(5, 6)
+	vfC25HistoryWith(t, "clock-steps-cap2", "2", 2, bdepth, vfC25BackSteps, false)
+	vfC25HistoryWith(t, "clock-steps-capdefault", "default", 0, bdepth, vfC25BackSteps, false)
 }
